@@ -253,7 +253,7 @@ class Ctx:
             "notes": self.notes,
             "known_findings_hit": sorted(self.known_hit),
         }
-        if not self.proof["obligations"]:
+        if not self.proof["obligations"] or not self.proof["discharged"]:
             # no theorem registered (yet): fall back to the exploration-style keys only
             for k in ("obligations", "discharged"):
                 cov.pop(k)
